@@ -122,10 +122,12 @@ def check(case):
             tc = case["t0"] + e["frac"] * (case["tf"] - case["t0"])
 
             def g(t, y, _tc=tc, **kw):
+                cnt["event_calls"] = cnt.get("event_calls", 0) + 1
                 return t - _tc
             g.is_terminal = e["terminal"]
             evs.append(g)
         rounds = []          # per callback round: (len, t_last)
+        ev_seen = []         # event-function calls made so far, per round
         order = []
         cb_viol = []
         dt_assigned = {}
@@ -139,6 +141,7 @@ def check(case):
                     if len(np.asarray(system.y)) != n or len(np.asarray(system.t)) != n:
                         cb_viol.append("inside a callback len(system)={} but len(t)={} len(y)={}".format(n, len(system.t), len(system.y)))
                     rounds.append((n, tl))
+                    ev_seen.append(cnt.get("event_calls", 0))
                     if case["set_dt"] is not None and fam in ("explicit_fixed", "splitting"):
                         d = case["dt"] * case["set_dt"] * (1 + (len(rounds) % 3))
                         system.dt = d
@@ -162,7 +165,8 @@ def check(case):
                 if a.nfev != 0:
                     viols.append(V("nfev_reset", "nfev = {} after reset()".format(a.nfev), sig, **attrs))
             n0 = len(a)
-            rounds.clear(); order.clear(); dt_assigned.clear()
+            rounds.clear(); order.clear(); dt_assigned.clear(); ev_seen.clear()
+            ev_base = cnt.get("event_calls", 0)
             status_before = a.integration_status
             err = traj.run_integrate(a, None, step_limit=len(a) + (300 if fam in ("implicit_fixed", "implicit_embedded", "richardson") else 2000), events=evs or None, callbacks=cbs, injected=(Boom,))
             if isinstance(err, traj.StepCap):
@@ -199,6 +203,16 @@ def check(case):
                     viols.append(V("callback_sees_old_state", "{}: in callback round {} t[-1] was {!r} but sample {} of the final trajectory is {!r}".format(method, r_i, tl, n - 1, float(t[n - 1])), sig, **attrs))
                     break
                 prev = n
+            # with events monitored every loop iteration examines them before its callbacks run: a round that is not preceded
+            # by event evaluations belongs to no examined step (e.g. callbacks fired inside the landing re-integration)
+            if evs and rounds:
+                prev_e = ev_base
+                for r_i, e_now in enumerate(ev_seen):
+                    if e_now == prev_e:
+                        viols.append(V("callback_extra_round", "{}: callback round {} of {} ran without the events having been examined since the previous round (samples then: {}, final: {})".format(
+                            method, r_i, len(rounds), rounds[r_i][0], len(a)), sig, **attrs))
+                        break
+                    prev_e = e_now
             if not failed and rounds and rounds[-1][0] != len(a):
                 viols.append(V("callback_count", "{}: {} recorded samples but the last callback round saw {}".format(method, len(a), rounds[-1][0]), sig, **attrs))
             if not failed and not rounds and len(a) > n0:
